@@ -2,6 +2,7 @@ package world
 
 import (
 	"bytes"
+	"encoding/base64"
 	"errors"
 	"fmt"
 	"net/http"
@@ -77,7 +78,12 @@ func genMeta(t *core.Tape, prefix string, bin map[string][][]byte) http.Header {
 			key := fmt.Sprintf("%s-%d-Bin", prefix, i)
 			for j := 0; j < nv; j++ {
 				raw := t.Bytes(t.Choose(33, "bin.n"), 2, "bin")
-				h.Add(key, connect.EncodeBinaryHeader(raw))
+				enc := connect.EncodeBinaryHeader(raw)
+				if t.Bool(1, 3, "bin.padded") {
+					// user code (or a foreign peer) may pad its base64
+					enc = base64.StdEncoding.EncodeToString(raw)
+				}
+				h.Add(key, enc)
 				bin[key] = append(bin[key], raw)
 			}
 			continue
@@ -247,7 +253,45 @@ func genRich(t *core.Tape, tier, prop string) *Scenario {
 	boundSteps(p)
 	genYield(t, p)
 	sc.Calls = []*CallPlan{p}
+	if p.HErr != nil && !p.HErr.Plain && p.HErr.CtxKind == 0 && !p.HErr.CtxErr && !p.InterceptorErr && t.Bool(1, 4, "sentinel.error") {
+		// the handler returns a package-level sentinel: the same error value for
+		// every call. Whatever the library does with it must not carry over.
+		p.HErr.Shared = true
+		for i := 1 + t.Choose(2, "sentinel.calls"); i > 0; i-- {
+			q := *p
+			q.ID = callID(len(sc.Calls))
+			sc.Calls = append(sc.Calls, &q)
+		}
+		sc.Notes["sentinel_error_reused"]++
+	}
 	return sc
+}
+
+// extraValues reports a value of a generated key that the handler did not
+// attach in this call (each attached value accounts for one occurrence).
+func extraValues(got http.Header, attached ...http.Header) (string, bool) {
+	keys := make([]string, 0, len(got))
+	for k := range got {
+		if strings.HasPrefix(k, "X-H") || strings.HasPrefix(k, "X-T") || strings.HasPrefix(k, "X-M") || k == "X-Shared" {
+			keys = append(keys, k)
+		}
+	}
+	sort.Strings(keys)
+	for _, k := range keys {
+		budget := map[string]int{}
+		for _, a := range attached {
+			for _, v := range a[k] {
+				budget[v]++
+			}
+		}
+		for _, v := range got[k] {
+			if budget[v] == 0 {
+				return fmt.Sprintf("key %q carries %q, which the handler did not attach in this call (attached: %v)", k, got[k], budget), false
+			}
+			budget[v]--
+		}
+	}
+	return "", true
 }
 
 // hasOp reports whether the handler program contains op.
@@ -545,6 +589,12 @@ func checkC11(w *World, st core.Status, r *RunResult) []Violation {
 		if !p.HErr.Plain {
 			if why, ok := containsValues(ce.Meta(), p.HErr.Meta); !ok {
 				add("error-metadata", why)
+			}
+			if why, ok := extraValues(ce.Meta(), p.HErr.Meta, p.RespHeader, p.RespTrailer); !ok {
+				add("error-metadata-extra", why)
+			}
+			if why, ok := extraValues(o.RespTrailer, p.HErr.Meta, p.RespHeader, p.RespTrailer); !ok {
+				add("response-trailer-extra", why)
 			}
 		}
 		if p.Kind == KServer || p.Kind == KBidi {
